@@ -429,13 +429,62 @@ impl Space for Sequences {
     }
 }
 
+/// Large tables: 70 000 entries; indexes around 2^8, 2^16 and the end; full iteration.
+struct BigTables;
+impl Space for BigTables {
+    fn name(&self) -> String {
+        "tables of 70 000 entries (+ a ragged tail) for the 9 entry types x 4 encodings: len, get(i) for i around 2^8, 2^16, len and the index alphabet, full iteration".into()
+    }
+    fn size(&self) -> u64 {
+        36
+    }
+    fn describe(&self, idx: u64) -> Value {
+        json!({"type": TYPES[(idx % 9) as usize].0, "encoding": ENCS[(idx / 9) as usize].name(), "entries": 70000})
+    }
+    fn run(&self, idx: u64, out: &mut Outcome) {
+        let t = (idx % 9) as usize;
+        let enc = ENCS[(idx / 9) as usize];
+        let ent = entsize(t, enc);
+        let n = 70_000usize;
+        let blen = n * ent + ent / 2;
+        let data: Vec<u8> = (0..blen).map(|i| ((i as u64).wrapping_mul(0x9e3779b97f4a7c15) >> 56) as u8).collect();
+        let mut idxs: Vec<usize> = vec![0, 1, 254, 255, 256, 257, 65534, 65535, 65536, 65537, 69_998, 69_999, 70_000, 70_001];
+        idxs.extend(index_alphabet(n, ent));
+        let obs = match subject(|| per_type9!(t, observe_table, enc, &data, &idxs)) {
+            Err(m) => {
+                out.violate(format!("panic:ParsingTable<{}> in {}", TYPES[t].0, panic_site(&m)), m);
+                return;
+            }
+            Ok(o) => o,
+        };
+        out.transitions += (idxs.len() + 3 * n) as u64;
+        let who = TYPES[t].0;
+        if obs.len != n {
+            out.violate(format!("len:{who}"), format!("70000-entry table: len() = {}", obs.len));
+        }
+        for (k, i) in idxs.iter().enumerate() {
+            let want = if *i < n { Some(ref_entry(t, enc, &data, *i)) } else { None };
+            if obs.gets[k] != want {
+                out.violate(format!("get:{who}"), format!("70000-entry {} table: get({}) wrong", enc.name(), i));
+                break;
+            }
+        }
+        for (name, items) in [("iter", &obs.iter), ("into_iter", &obs.into_iter), ("ParsingIterator", &obs.bare)] {
+            if items.len() != n || items[65536] != ref_entry(t, enc, &data, 65536) || items[n - 1] != ref_entry(t, enc, &data, n - 1) {
+                out.violate(format!("{name}:{who}"), format!("70000-entry {} table: {name} yields {} items or wrong items at 65536 / the end", enc.name(), items.len()));
+            }
+        }
+        out.nontrivial(idx ^ 0x70000);
+    }
+}
+
 pub fn build(tier: Tier) -> CheckDef {
     CheckDef {
         prop: "C09",
         level: "model_checking",
         rule: "complete grid of ragged table lengths x entry types x encodings x index alphabet against the reference decode (len = floor(bytes/entsize), get(i) Ok iff i < len, iteration = the whole entries in order); explicit-state exploration of iterator/table operation histories (states de-duplicated on the iterator's Debug state + the reference cursor) checking that no answer depends on history. non-trivial = table with at least one whole entry".into(),
         assumptions: vec!["entry contents are compared through the public fields of each type".into()],
-        spaces: vec![Box::new(Grid { full: tier == Tier::Thorough }), Box::new(Sequences { depth: tier.pick(4, 6) })],
+        spaces: vec![Box::new(Grid { full: tier == Tier::Thorough }), Box::new(Sequences { depth: tier.pick(4, 6) }), Box::new(BigTables)],
         abort_is_violation: false,
         hang_is_violation: true,
         exhaustive: true,
